@@ -283,6 +283,33 @@ def rules(P, R, prefix="C07"):
                             "process_block is reached only under the additional condition(s) %s: a sync reply (a valid proposal of a past round) "
                             "failing them is dropped, never stored, and every block parked on it waits forever" % extra)
 
+        # ---------------- Y9 the arms that carry recovery are not starvable by peers' traffic
+        # tokio::select! starts polling at a random arm unless `biased;` is written; with `biased;` an arm is only looked at
+        # when every earlier arm is pending.  The loop-back arm of Core (parked blocks resumed by the synchronizer) and the
+        # resume / retry arms of the synchronizer task must therefore be polled fairly, or precede every arm fed by the network.
+        sel_sites = []
+        if run is not None and loopback is not None:
+            for n in run.nodes():
+                if n["k"] == "select":
+                    rec = [b["i"] for b in n["branches"] if any(x is loopback[1] for x in ir.walk(b["body"]))]
+                    if rec:
+                        sel_sites.append((run, n, rec, "the loop-back arm (resumed blocks)"))
+        for sn in [f for f in prog.fns.values() if f.self_ty == SYNC and not f.derived]:
+            for n in sn.nodes():
+                if n["k"] == "select":
+                    rec = [b["i"] for b in n["branches"] if b.get("fut") is not None and "recv" not in ir.pp(b["fut"])]
+                    if rec and len(rec) < len(n["branches"]):
+                        sel_sites.append((sn, n, rec, "the resume / retry arms"))
+        R.floor(prefix + ".Y9", len(sel_sites), 2, "select! sites carrying recovery (Core main loop, synchronizer task)" + tag)
+        for (f, n, rec, what), i in ordinal_keys(sel_sites, lambda x: x[0].path):
+            others = [b["i"] for b in n["branches"] if b["i"] not in rec]
+            okf = n.get("fair") is True or (n.get("fair") is False and max(rec) < min(others or [1 << 30]))
+            R.judge(okf, prefix + ".Y9", key(f, "recovery arms of select! are polled fairly" + tag, i), n["sp"],
+                    "fair=%s recovery arms=%s other arms=%s" % (n.get("fair"), rec, others),
+                    "select! is polled in source order (`biased;`) and %s come(s) after arms fed by the network: sustained inflow starves "
+                    "them and a lagging node never resumes its parked blocks" % what if n.get("fair") is False else
+                    "cannot determine the polling order of this select! (undecidable-shape)")
+
 
 def check(P, R, tier):
     R.explanation = EXPLANATION
